@@ -33,6 +33,8 @@ Queries == {
   "progressions.to_chords('IM7', 'F')", "progressions.to_chords('Im7', 'F')", "progressions.to_chords(['VIIm'], 'F')", "progressions.to_chords(['VIIM'], 'F')",
   "progressions.to_chords('bII', 'F')", "progressions.to_chords('BII', 'F')", "progressions.to_chords('II', 'G')",
   "chords.from_shorthand('AM7')", "chords.from_shorthand('Cm')", "chords.from_shorthand('CM')", "keys.get_notes('A')", "keys.get_notes('E')", "keys.get_notes('g')",
+  "scales.Chromatic('F').ascending()", "scales.Chromatic('f').ascending()", "scales.Chromatic('A').descending()", "scales.Chromatic('a').descending()",
+  "scales.Major('F').ascending()", "scales.NaturalMinor('F').ascending()",
   "intervals.from_shorthand('C', '7')", "notes.note_to_int('G')", "notes.note_to_int('G#')", "scales.determine(['A', 'B', 'C'])",
   "intervals.third('E', 'C')", "intervals.seventh('F#', 'G')", "intervals.from_shorthand('C', 'b7')", "intervals.invert(['C', 'E', 'G'])",
   "intervals.determine('C', 'G')", "intervals.major_sixth('Eb')", "intervals.measure('C', 'B')", "intervals.interval('G', 'A', 3)",
